@@ -426,13 +426,16 @@ def build_wfmt(fmt):
             # pure d with Cartesian f functions and the reverse (Gaussian's 5D 10F / 6D 7F): the header tags must say so
             kd, kf = ("p", "c") if variant == "dpfc" else ("c", "p")
             shells = [(0, [2], [kd], 1), (1, [3], [kf], 1), (1, [0], ["c"], 1)]
+        if variant == "hcart":
+            # Cartesian h functions: 21 components whose order the reader and the writer of a format must agree on
+            shells = [(0, [5], ["c"], 1), (1, [0], ["c"], 1)]
         atoms = [(8, None), (1, None)][:natom]
         uhf = variant == "uhf"
         kw = wfobj.make_wf(ctx, atoms, shells, conv=conv, mo_kind="unrestricted" if uhf else "restricted", norb=2,
                            occ="uhf-odd" if uhf else "closed", coords_sym=not heavy, contraction_sym=False, sym=not heavy)
         exp = {"atnums": kw["atnums"], "atcoords": kw["atcoords"], "@wavefunction": True}
         tol = dict(atcoords=2e-6 if fmt == "molekel" else 1e-7)
-        full = variant in ("full", "uhf", "ecp", "unsorted", "dpfc", "dcfp")
+        full = variant in ("full", "uhf", "ecp", "unsorted", "dpfc", "dcfp", "hcart")
         if fmt in ("wfn", "wfx", "molden") and full:
             kw["title"] = f"3 21 {fmt} title"
             exp["title"] = kw["title"]
